@@ -367,7 +367,11 @@ func formatPostingWithOpts(posting *ast.Posting, alignment AlignmentInfo, commod
 	}
 
 	if posting.Comment != "" {
-		sb.WriteString("  ; ")
+		// the comment text starts right after ';' and usually begins with a blank
+		sb.WriteString("  ;")
+		if !strings.HasPrefix(posting.Comment, " ") {
+			sb.WriteString(" ")
+		}
 		sb.WriteString(posting.Comment)
 	}
 
